@@ -240,7 +240,22 @@ fn real(alg: &str, variant: &str) -> String {
   use identity_ecdsa_verifier::EcDSAJwsVerifier;
   use identity_eddsa_verifier::EdDSAJwsVerifier;
   let b64 = crate::jwtu::b64;
-  let header = format!(r#"{{"alg":"{}"}}"#, alg);
+  // `crossalg`: the protected header names ANOTHER algorithm than the one the key and the signature are of
+  let hdr_alg = if variant == "crossalg" {
+    match alg {
+      "ES256" => "ES256K",
+      "ES256K" => "ES256",
+      _ => "ES256",
+    }
+  } else if variant == "crossalg2" {
+    match alg {
+      "EdDSA" => "ES256K",
+      _ => "EdDSA",
+    }
+  } else {
+    alg
+  };
+  let header = format!(r#"{{"alg":"{}"}}"#, hdr_alg);
   let si = format!("{}.{}", b64(header.as_bytes()), b64(br#"{"iss":"did:ex:i1","n":1}"#));
   // (signature bytes, DER form if any, public JWK, another public JWK of the same family)
   let (sig, der, jwk, other): (Vec<u8>, Option<Vec<u8>>, String, String) = match alg {
@@ -318,6 +333,7 @@ fn real(alg: &str, variant: &str) -> String {
       key_json = other.clone();
       sig.clone()
     }
+    ["crossalg"] | ["crossalg2"] => sig.clone(),
     _ => return "bad-request".into(),
   };
   let token = format!("{}.{}", si, b64(&altered));
@@ -326,7 +342,14 @@ fn real(alg: &str, variant: &str) -> String {
     Ok(i) => i,
     Err(_) => return with_real("decode-err", variant),
   };
+  let redo = || Decoder::new().decode_compact_serialization(token.as_bytes(), None);
   let ok = if alg == "EdDSA" { item.verify(&EdDSAJwsVerifier::default(), &key).is_ok() } else { item.verify(&EcDSAJwsVerifier::default(), &key).is_ok() };
+  // a token whose header names another algorithm must be rejected by BOTH dispatchers
+  let ok = if variant.starts_with("crossalg") {
+    ok || redo().map(|i| i.verify(&EdDSAJwsVerifier::default(), &key).is_ok()).unwrap_or(false) || redo().map(|i| i.verify(&EcDSAJwsVerifier::default(), &key).is_ok()).unwrap_or(false)
+  } else {
+    ok
+  };
   with_real(if ok { "verified" } else { "rejected" }, variant)
 }
 
@@ -514,6 +537,8 @@ pub fn gen(thorough: bool, seed: u64, out: &mut impl Write) {
     }
     writeln!(out, "C01 real {} zero", alg).unwrap();
     writeln!(out, "C01 real {} otherkey", alg).unwrap();
+    writeln!(out, "C01 real {} crossalg", alg).unwrap();
+    writeln!(out, "C01 real {} crossalg2", alg).unwrap();
     if alg != "EdDSA" {
       writeln!(out, "C01 real {} der", alg).unwrap();
     }
@@ -526,6 +551,8 @@ pub fn gen(thorough: bool, seed: u64, out: &mut impl Write) {
     "H:-:-:-:kid:-",
     "H:ES256:-:-:kid,typ:x",
     "H:EdDSA:-:=:-:-",
+    "H:none:-:-:-:-",
+    "H:none:-:-:kid,typ:-",
   ];
   let payloads: [&[u8]; 6] = [b"payload", b"{\"a\":1}", b"a.b", b"", b"\x00\xff\x10bin", b"aGk"];
   let keys = ["k:7:-", "k:7:EdDSA", "k:7:ES256", "k:7:eddsa", "k:7:Ed25519", "k:7:ECDH-ES+A256KW", "k:7:", "k:7:none"];
@@ -547,9 +574,10 @@ pub fn gen(thorough: bool, seed: u64, out: &mut impl Write) {
         let mut si = seg0.clone().into_bytes();
         si.push(b'.');
         si.extend_from_slice(&pl_used);
-        for sigkind in ["good", "badmac", "badb64", "noncanon", "otherkey"] {
+        for sigkind in ["good", "badmac", "badb64", "noncanon", "otherkey", "empty"] {
           let sig: Vec<u8> = match sigkind {
             "good" => b64url(&toy_mac(7, &si)).into_bytes(),
+            "empty" => vec![],
             "badmac" => b64url(&[7, 0, 0, 0]).into_bytes(),
             "badb64" => b"!!!!".to_vec(),
             "noncanon" => {
